@@ -110,7 +110,17 @@ def space():
     return SPACE
 
 
+_INIT = None
+
+
 def initial_states():
+    global _INIT
+    if _INIT is None:
+        _INIT = _initial_states()
+    return _INIT
+
+
+def _initial_states():
     out = {}
     out["SSCSimfile()"] = ({"type": "ssc", "items": [], "charts": []}, lambda: X.SSCSimfile())
     out["SSCSimfile(string='')"] = ({"type": "ssc", "items": [], "charts": []}, lambda: X.SSCSimfile(string=""))
@@ -118,18 +128,19 @@ def initial_states():
     for name, rel in (("Springtime.ssc (notes shortened)", "Springtime/Springtime.ssc"), ("L9.ssc (notes shortened)", "L9/L9.ssc")):
         path = os.path.join(core.SRC, "testdata", rel)
         if os.path.exists(path):
-            def mk(path=path):
+            def load(path=path):
                 sf = X.simfile.open(path)
                 sf.charts = list(sf.charts)[:3]
                 for ch in sf.charts:
                     ch.notes = ",".join(ch.notes.split(",")[:2]).strip()
                 return sf
-            out[name] = (H.model_from_object(mk()), mk)
+            pristine = load()  # never serialized; every state's object starts from a deep copy of it
+            out[name] = (H.model_from_object(pristine), lambda pristine=pristine: copy.deepcopy(pristine))
     return out
 
 
 OPS = [
-    ("set", "TITLE", None), ("set", "TITLE", "x"), ("set", "TITLE", SOUP), ("set", "ATTACKS", "a:b"), ("set", "ATTACKS", None), ("set", "VERSION", "0.83"),
+    ("set", "TITLE", None), ("set", "TITLE", "x"), ("set", "TITLE", SOUP), ("set", "ATTACKS", "a:b"), ("set", "ATTACKS", None), ("set", "VERSION", "0.83"), ("set", "VERSION", None),
     ("set", "", "x"), ("alias", "X Y", "TITLE"), ("del", "TITLE"), ("del", "VERSION"),
     ("aset", "title", "t2"), ("adel", "title"), ("aset", "bgchanges", "b"), ("set", "ANIMATIONS", "a"), ("aset", "displaybpm", "1:2"),
     ("c_append", "blank"), ("c_append", "n2first"), ("c_append", "mid"), ("c_append", "empties"), ("c_append", "last"),
@@ -216,7 +227,7 @@ def explore_shard(acc, shard):
     elif kind == "B":
         _, init_name, first_op, depth = shard
         model, mk = initial_states()[init_name]
-        H.bfs(acc, space(), "B edit histories", init_name, copy.deepcopy(model), mk(), OPS, depth, first_op, prop="C02")
+        H.bfs(acc, space(), "B edit histories", init_name, copy.deepcopy(model), mk, OPS, depth, first_op, prop="C02")
 
 
 def probe(p):
@@ -246,7 +257,7 @@ def explore(run):
     depth = 4 if run.thorough() else 3
     for name in initial_states():
         shards.append(("B", name, None, 0))
-        for i in range(len(OPS)):
+        for i in range(len(OPS) + 1):  # + the 'serialize' operation
             shards.append(("B", name, i, depth))
     k = run.seed % len(shards)
     shards = shards[k:] + shards[:k]
@@ -274,6 +285,7 @@ def explore(run):
     core.require(acc.outcomes["value that is the same object as the note data"] > 0, "no aliasing case")
     core.require(acc.outcomes["note data not last"] > 0, "notes always last")
     core.require(acc.outcomes["NOTES2 chart"] > 0, "no NOTES2 chart")
+    core.require(acc.outcomes["state reached after an earlier serialization"] > 0, "no history with an intermediate serialization")
     core.require(acc.outcomes["state with charts"] > 0, "no chart states in histories")
     return run.finish(
         states=acc.c["states"] + bstates,
